@@ -1,11 +1,236 @@
 /-
-  C02 — property theorems only (placeholder until the refinement proof lands).
+  C02 — draft selection: which `$schema` values select draft-07, which are refused, and what changes under draft-07
+  (`$ref` siblings ignored, array-form `items` / `additionalItems`, `dependencies`).
+  Property theorems only (helper lemmas: JSV/Proofs/InvDraft.lean).
 -/
-import JSV.Model.Validate
+import JSV.Proofs.InvDraft
+import JSV.Props.C01
 namespace JSV.C02
-open JSV Go
+open JSV Go GoVal Refine
 
-theorem validateFuel_zero (env : VEnv) (stack : List NodeId) (i : GoVal) (s : NodeId) :
-    validateFuel env 0 stack i s = .fuel := rfl
+/-! ## detection -/
+
+/-- draft-07 semantics are selected exactly by the two draft-07 meta-schema URIs -/
+theorem detectDraft_spec (env : Go.Env) (hd : env.draft7URIs = Generated.detectDraft7) (str : String) :
+    Go.detectDraft env str = .d7 ↔ str ∈ Generated.detectDraft7 := by
+  unfold Go.detectDraft
+  rw [hd]
+  by_cases h : str ∈ Generated.detectDraft7
+  · simp [h]
+  · simp [h]
+
+/-- everything else (including the empty string and unknown URIs) gets draft 2020-12 semantics -/
+theorem detectDraft_2020 (env : Go.Env) (hd : env.draft7URIs = Generated.detectDraft7) (str : String) :
+    Go.detectDraft env str = .d2020 ↔ str ∉ Generated.detectDraft7 := by
+  rw [← detectDraft_spec env hd str]
+  cases Go.detectDraft env str <;> simp
+
+/-- ties the model to the source: the list `detectDraft` compares against, regenerated from the Go code -/
+theorem draft7_uris_fact :
+    Generated.detectDraft7 = ["http://json-schema.org/draft-07/schema#", "https://json-schema.org/draft-07/schema#"] :=
+  rfl
+
+/-- … which are the two draft-07 constants of the package -/
+theorem draft7_uris_are_consts :
+    Generated.detectDraft7.map some =
+      [Json.lookup "draft7SchemaVersion" (Generated.stringConsts.map fun p => (p.1, p.2)),
+       Json.lookup "draft7SecSchemaVersion" (Generated.stringConsts.map fun p => (p.1, p.2))] := by
+  decide
+
+theorem supported_versions_fact :
+    Generated.supportedVersions = ["", "http://json-schema.org/draft-07/schema#",
+      "https://json-schema.org/draft-07/schema#", "https://json-schema.org/draft/2020-12/schema"] :=
+  rfl
+
+/-- every URI that selects draft-07 is a supported version, and so are the 2020-12 URI and "no $schema" -/
+theorem detected_are_supported :
+    (Generated.detectDraft7 ++ Generated.detectDraft2020 ++ [""]).all (Generated.supportedVersions.contains ·) = true := by
+  decide
+
+/-- the defaults of the model's resolver environment are the regenerated lists -/
+theorem env_defaults (st : Store) (reOk : String → Bool) (loader : Option (List (String × LoaderResult))) :
+    ({ st := st, reOk := reOk, loader := loader } : Go.Env).draft7URIs = Generated.detectDraft7 ∧
+    ({ st := st, reOk := reOk, loader := loader } : Go.Env).supported = Generated.supportedVersions :=
+  ⟨rfl, rfl⟩
+
+/-! ## refusal -/
+
+/-- a root whose `$schema` is not a supported version is refused, for every instance, before any evaluation -/
+theorem unsupported_refused (env : VEnv) (supported : List String) (fuel : Nat) (root : NodeId) (rn : Node)
+    (hroot : env.st.get? root = some rn) (hsup : rn.schema ∉ supported) :
+    ∀ inst, Go.validate env supported fuel root inst = .err := by
+  intro inst
+  exact C01.unsupported_schema env supported fuel root inst rn hroot (by simpa using hsup)
+
+/-- a supported `$schema` is never the reason of a refusal: the result is that of the evaluation -/
+theorem supported_not_refused (env : VEnv) (supported : List String) (fuel : Nat) (root : NodeId) (rn : Node)
+    (hroot : env.st.get? root = some rn) (hsup : rn.schema ∈ supported) (inst : GoVal) :
+    Go.validate env supported fuel root inst = Res.bind (Go.validateFuel env fuel [] inst root) fun _ => .ok () := by
+  unfold Go.validate
+  rw [hroot]
+  have : supported.contains rn.schema = true := by simpa using hsup
+  simp only [this, Bool.not_true, Bool.false_eq_true, if_false]
+
+/-- with the package's list: exactly "", the two draft-07 URIs and the 2020-12 URI pass -/
+theorem supported_iff (s : String) :
+    s ∈ Generated.supportedVersions ↔
+      s = "" ∨ s = "http://json-schema.org/draft-07/schema#" ∨ s = "https://json-schema.org/draft-07/schema#" ∨
+      s = "https://json-schema.org/draft/2020-12/schema" := by
+  simp [Generated.supportedVersions]
+
+/-! ## draft-07: `$ref` siblings are ignored -/
+
+/-- Spec: under draft-07 a schema object with `$ref` is valid iff its target is; nothing else of the object is looked
+    at and no annotation comes back -/
+theorem ref_siblings_ignored7 (env : Spec.Env) (rec : Spec.Rec) (scope : List NodeId) (s : NodeId) (n : Node) (j : Json)
+    (hd : env.draft = .d7) (hn : env.st.get? s = some n) (hr : n.ref ≠ "") :
+    Spec.evalStep env rec scope s j = (Spec.kwRef env (rec (scope ++ [s])) s n j).map (·.map fun _ => {}) := by
+  unfold Spec.evalStep
+  have h1 : (n.ref != "") = true := by simp [hr]
+  simp only [hn, hd, h1, beq_self_eq_true, Bool.and_self, if_true]
+
+/-- … which depends on the target only: any two objects with a `$ref` at this place get the same result -/
+theorem ref_siblings_ignored7_target (env : Spec.Env) (rec : Spec.Rec) (scope : List NodeId) (s : NodeId) (n : Node)
+    (j : Json) (hd : env.draft = .d7) (hn : env.st.get? s = some n) (hr : n.ref ≠ "") :
+    Spec.evalStep env rec scope s j =
+      Option.map (fun (r : Spec.R) => r.map fun _ => ({} : Spec.Ev))
+        (match env.refTarget s with
+         | some t => rec (scope ++ [s]) t j
+         | none => none) := by
+  rw [ref_siblings_ignored7 env rec scope s n j hd hn hr]
+  unfold Spec.kwRef Spec.inPlace
+  have h1 : (n.ref != "") = true := by simp [hr]
+  simp only [h1, if_true]
+  cases env.refTarget s <;> rfl
+
+/-- the same for the evaluator: with draft-07, a `$ref` and the resolution record present, one call is exactly the
+    call on the target, with empty annotations (hypotheses = the prologue's panic conditions excluded) -/
+theorem ref_siblings_ignored7_model (env : VEnv) (hd : env.draft = .d7) (rec : Go.Rec) (stack : List NodeId)
+    (inst : GoVal) (s : NodeId) (n : Node) (i : Info) (t : NodeId) (hn : env.st.get? s = some n) (hr : n.ref ≠ "")
+    (hi : env.info? s = some i) (ht : i.resolvedRef = some t) :
+    Go.validateStep env rec stack inst s = (rec (stack ++ [s]) (GoVal.strip inst) t).bind fun _ => .ok {} :=
+  Inv.validateStep_ref7 env hd rec stack inst s n i t hn hr hi ht
+
+/-- hence replacing the object by the bare `{"$ref": …}` changes nothing -/
+theorem ref_siblings_ignored7_model_bare (env : VEnv) (hd : env.draft = .d7) (rec : Go.Rec) (stack : List NodeId)
+    (inst : GoVal) (s : NodeId) (n : Node) (i : Info) (t : NodeId) (hn : env.st.get? s = some n) (hr : n.ref ≠ "")
+    (hi : env.info? s = some i) (ht : i.resolvedRef = some t) (st' : Store)
+    (hn' : st'.get? s = some { ref := n.ref }) :
+    Go.validateStep { env with st := st' } rec stack inst s = Go.validateStep env rec stack inst s := by
+  rw [ref_siblings_ignored7_model env hd rec stack inst s n i t hn hr hi ht,
+      ref_siblings_ignored7_model { env with st := st' } hd rec stack inst s { ref := n.ref } i t hn' hr hi ht]
+
+/-! ## draft-07: arrays and dependencies -/
+
+/-- draft-07 arrays: array-form `items` with `additionalItems`, else single-schema `items`; `prefixItems` is not read -/
+theorem draft7_array_shape (env : Spec.Env) (n : Node) (hd : env.draft = .d7) :
+    Spec.arrayShape env n = (match n.itemsArray with
+      | some ia => (ia, n.additionalItems)
+      | none => ([], n.items)) ∧
+    ∀ p, Spec.arrayShape env { n with prefixItems := p } = Spec.arrayShape env n := by
+  unfold Spec.arrayShape
+  rw [hd]
+  exact ⟨rfl, fun _ => rfl⟩
+
+/-- 2020-12 arrays: `prefixItems` then `items`; array-form `items` and `additionalItems` are not read -/
+theorem draft2020_array_shape (env : Spec.Env) (n : Node) (hd : env.draft = .d2020) :
+    Spec.arrayShape env n = (n.prefixItems.getD [], n.items) ∧
+    ∀ ia ai, Spec.arrayShape env { n with itemsArray := ia, additionalItems := ai } = Spec.arrayShape env n := by
+  unfold Spec.arrayShape
+  rw [hd]
+  exact ⟨rfl, fun _ _ => rfl⟩
+
+/-- draft-07 `dependencies`: the string form feeds the required-check, the schema form the in-place applicator;
+    dependentRequired / dependentSchemas are not read -/
+theorem draft7_dependencies (env : Spec.Env) (sub : NodeId → Json → Spec.Out) (n : Node) (j : Json) (hd : env.draft = .d7) :
+    (∀ dr, Spec.objectLimitsOk env { n with dependentRequired := dr } j = Spec.objectLimitsOk env n j) ∧
+    (∀ ds, Spec.kwDependentSchemas env sub { n with dependentSchemas := ds } j = Spec.kwDependentSchemas env sub n j) ∧
+    (∀ kvs, j = .obj kvs → Spec.kwDependentSchemas env sub n j =
+      (Spec.sequence (((n.dependencySchemas.getD []).filter fun (k, _) => (Json.lookup k kvs).isSome).map
+        fun (_, t) => sub t j)).map Spec.conj) := by
+  refine ⟨fun dr => ?_, fun ds => ?_, fun kvs hj => ?_⟩
+  · unfold Spec.objectLimitsOk; rw [hd]
+  · unfold Spec.kwDependentSchemas; rw [hd]
+  · subst hj; unfold Spec.kwDependentSchemas; rw [hd]
+
+theorem draft2020_dependencies (env : Spec.Env) (sub : NodeId → Json → Spec.Out) (n : Node) (j : Json)
+    (hd : env.draft = .d2020) :
+    (∀ dr, Spec.objectLimitsOk env { n with dependencyStrings := dr } j = Spec.objectLimitsOk env n j) ∧
+    (∀ ds, Spec.kwDependentSchemas env sub { n with dependencySchemas := ds } j = Spec.kwDependentSchemas env sub n j) := by
+  refine ⟨fun dr => ?_, fun ds => ?_⟩
+  · unfold Spec.objectLimitsOk; rw [hd]
+  · unfold Spec.kwDependentSchemas; rw [hd]
+
+/-- the evaluator under draft-07 never reads prefixItems, dependentRequired, dependentSchemas … -/
+theorem draft7_model_ignores (env : VEnv) (hd : env.draft = .d7) : ∀ fuel stack i s,
+    Go.validateFuel { env with st := env.st.map Inv.erase2020only } fuel stack i s = Go.validateFuel env fuel stack i s :=
+  Inv.validateFuel_d7_ignores env hd
+
+/-- … and under 2020-12 never reads array-form items, additionalItems, dependencies -/
+theorem draft2020_model_ignores (env : VEnv) (hd : env.draft = .d2020) : ∀ fuel stack i s,
+    Go.validateFuel { env with st := env.st.map Inv.erase7only } fuel stack i s = Go.validateFuel env fuel stack i s :=
+  Inv.validateFuel_d2020_ignores env hd
+
+/-! ## The statements are not vacuous -/
+
+def exREnv : Go.Env := { st := #[], reOk := fun _ => true, loader := none }
+
+example : Go.detectDraft exREnv "http://json-schema.org/draft-07/schema#" = .d7 :=
+  (detectDraft_spec exREnv rfl _).2 (by decide)
+example : Go.detectDraft exREnv "https://json-schema.org/draft-07/schema#" = .d7 := by decide
+/-- without the trailing `#`, or any other URI: 2020-12 semantics (and, not being supported, refused at Validate) -/
+example : Go.detectDraft exREnv "http://json-schema.org/draft-07/schema" = .d2020 :=
+  (detectDraft_2020 exREnv rfl _).2 (by decide)
+example : Go.detectDraft exREnv "" = .d2020 := by decide
+example : "http://json-schema.org/draft-07/schema" ∉ Generated.supportedVersions := by decide
+example : "http://json-schema.org/draft-04/schema#" ∉ Generated.supportedVersions := by decide
+
+/-- `{"$ref":"#/definitions/s","maxLength":1,"definitions":{"s":{"type":"string"}}}`: under draft-07 `maxLength` is
+    ignored, under 2020-12 it is applied -/
+def exStore : Store := #[
+  { ref := "#/definitions/s", maxLength := some 1, definitions := some [("s", 1)] },
+  { type := "string" } ]
+def exInfos : List (NodeId × Info) :=
+  [(0, { path := "root", base := some 0, resolvedRef := some 1 }), (1, { base := some 0 })]
+def exEnv7 : VEnv :=
+  { st := exStore, draft := .d7, infos := exInfos, reMatch := fun _ _ => false, hash := fun _ => 0 }
+def exEnv20 : VEnv := { exEnv7 with draft := .d2020 }
+
+example : Spec.valid (specEnvOf exEnv7) 3 0 (.str "long") = some true := by decide
+example : Spec.valid (specEnvOf exEnv20) 3 0 (.str "long") = some false := by decide
+example : Go.validate exEnv7 Generated.supportedVersions 3 0 (GoVal.ofJson (.str "long")) = .ok () := by decide
+example : Go.validate exEnv20 Generated.supportedVersions 3 0 (GoVal.ofJson (.str "long")) = .err := by decide
+/-- `ref_siblings_ignored7_model` applied -/
+example (rec : Go.Rec) (inst : GoVal) :
+    Go.validateStep exEnv7 rec [] inst 0 = (rec [0] (GoVal.strip inst) 1).bind fun _ => .ok {} :=
+  ref_siblings_ignored7_model exEnv7 rfl rec [] inst 0 _ _ 1 rfl (by decide) rfl rfl
+
+/-- refusal -/
+def exEnvBad : VEnv := { exEnv7 with st := #[{ schema := "http://json-schema.org/draft-04/schema#" }] }
+example (inst : GoVal) : Go.validate exEnvBad Generated.supportedVersions 5 0 inst = .err :=
+  unsupported_refused exEnvBad _ 5 0 _ rfl (by decide) inst
+
+/-- `{"items":[{"type":"string"}],"additionalItems":false,"prefixItems":[{"type":"number"}],"dependencies":{"a":["b"]}}`:
+    draft-07 reads the array form and `dependencies` -/
+def exStore2 : Store := #[
+  { itemsArray := some [1], additionalItems := some 2, prefixItems := some [4],
+    dependencyStrings := some [("a", some ["b"])] },
+  { type := "string" }, { not := some 3 }, {}, { type := "number" } ]
+def exInfos2 : List (NodeId × Info) :=
+  [(0, { path := "root", base := some 0 }), (1, { base := some 0 }), (2, { base := some 0 }), (3, { base := some 0 }),
+   (4, { base := some 0 })]
+def exEnv2 : VEnv :=
+  { st := exStore2, draft := .d7, infos := exInfos2, reMatch := fun _ _ => false, hash := fun _ => 0 }
+
+example : Spec.valid (specEnvOf exEnv2) 4 0 (.arr [.str "x"]) = some true := by decide
+example : Spec.valid (specEnvOf exEnv2) 4 0 (.arr [.str "x", .null]) = some false := by decide
+example : Spec.valid (specEnvOf exEnv2) 4 0 (.arr [.num 1]) = some false := by decide
+example : Spec.valid (specEnvOf exEnv2) 4 0 (.obj [("a", .null)]) = some false := by decide
+example : Spec.valid (specEnvOf exEnv2) 4 0 (.obj [("a", .null), ("b", .null)]) = some true := by decide
+/-- the same store read as 2020-12: `prefixItems` decides, the draft-07 forms are not read -/
+example : Spec.valid (specEnvOf { exEnv2 with draft := .d2020 }) 4 0 (.arr [.num 1, .null]) = some true := by decide
+example : Spec.valid (specEnvOf { exEnv2 with draft := .d2020 }) 4 0 (.obj [("a", .null)]) = some true := by decide
+example : Go.validate exEnv2 [""] 4 0 (GoVal.ofJson (.arr [.str "x", .null])) = .err := by decide
+example : Go.validate { exEnv2 with draft := .d2020 } [""] 4 0 (GoVal.ofJson (.arr [.num 1, .null])) = .ok () := by decide
 
 end JSV.C02
